@@ -82,8 +82,10 @@ pub fn draw_cfg(rng: &mut Rng, profile: Profile, thorough: bool) -> ArrayCfg {
         _ => *[Flavour::Tok, Flavour::Tok, Flavour::Cid, Flavour::Cid, Flavour::ZTok].get(rng.below(5)).unwrap(),
     };
     let alloc_mode = rng.below(3) as u8;
-    let max_dim = if thorough { rng.range(1, 8) } else { rng.range(1, 6) };
-    let n_steps = if thorough { rng.range(4, 80) } else { rng.range(3, 40) };
+    // now and then a much larger shape with a short history (thorough tier)
+    let big = thorough && rng.chance(1, 48);
+    let max_dim = if big { rng.range(9, 32) } else if thorough { rng.range(1, 8) } else { rng.range(1, 6) };
+    let n_steps = if big { rng.range(3, 12) } else if thorough { rng.range(4, 80) } else { rng.range(3, 40) };
     let mut w = [0u32; N_FAM];
     let base: [u32; N_FAM] = match profile {
         //             con ir  ic  rr  rc  clr swd cap wr  fil swp clf cpy trn srt prb ter vw  lk
